@@ -138,6 +138,41 @@ theorem produce_frame_every_cut :
         r.1.isFail && r.2.closed
       | none => false) = true := by decide
 
+/-- the un-framed sasl token exchange: an answer announcing n bytes of which fewer arrive (or whose 4-byte length is
+itself cut) is an error, at every cut position -/
+theorem raw_token_cut_is_error (inp : Bytes) (h : inp.length < 4 ∨ (0 ≤ beInt (inp.take 4) ∧ (inp.length : Int) < 4 + beInt (inp.take 4))) :
+    (rawToken inp).1.isFail = true := by
+  unfold rawToken readInt peekRead
+  by_cases h4 : inp.length < 4
+  · simp [h4, Outcome.isFail]
+  · have hn : ¬ (4 > 4) := by omega
+    simp only [gt_iff_lt, Nat.lt_irrefl, ↓reduceIte, h4]
+    rcases h with h | h
+    · omega
+    · by_cases hneg : beInt (inp.take 4) < 0
+      · simp [hneg, Outcome.isFail]
+      · simp only [hneg, ↓reduceIte]
+        have hc := cut_is_error_generic (conserves_readNewBytes (beInt (inp.take 4)) ⟨inp.drop 4, (beInt (inp.take 4)).toNat⟩)
+          (by simp only [List.length_drop]; omega)
+        cases hr : readNewBytes (beInt (inp.take 4)) ⟨inp.drop 4, (beInt (inp.take 4)).toNat⟩ with
+        | mk r s' =>
+          cases r with
+          | error e => simp [Outcome.isFail]
+          | ok b =>
+            -- an ok result of readNewBytes has consumed everything announced
+            exfalso
+            rw [hr] at hc
+            unfold readNewBytes at hr
+            by_cases h0 : beInt (inp.take 4) ≤ 0
+            · have : beInt (inp.take 4) = 0 := by omega
+              simp only [this, Int.le_refl, ↓reduceIte, Prod.mk.injEq] at hr
+              rw [← hr.2] at hc; simp [this] at hc
+            · simp only [h0, ↓reduceIte, Nat.min_self, Nat.lt_irrefl] at hr
+              split at hr
+              · cases hr
+              · simp only [Prod.mk.injEq] at hr
+                rw [← hr.2] at hc; simp at hc
+
 /-! ### Transport path: a failed connection is never used again, the next request runs on another one
 
 Model/TransportConn.lean: the life cycle of transport.go's connections as an LTS whose events are the existing
